@@ -20,16 +20,18 @@ Raise ValueError
 Ok axis
 ).
 
-(* fragment g_reshape_infer from sparse/numba_backend/_coo/core.py:COO.reshape selector=('if', 'any((d == -1 for d in shape))') srchash=44b04de5f3bc0d5c *)
+(* fragment g_reshape_infer from sparse/numba_backend/_coo/core.py:COO.reshape selector=('if', 'any((d == -1 for d in shape))') srchash=82069656050b9242 *)
 Definition g_reshape_infer (shape : pyv) (size : pyv) : res pyv :=
 known <- (match shape with
  | VTuple l_ => Ok (VInt (fold_right (fun v acc => match as_int v with Some d => if d =? -1 then acc else d * acc | None => acc end) 1 l_))
  | _ => Raise TypeError end) ;;
-t1_ <- (t4_ <- (py_eq known (VInt (0))) ;; if cond t4_ then Ok t4_ else (t3_ <- (t2_ <- Ok size ;; py_mod t2_ known) ;; py_ne t3_ (VInt (0)))) ;;
+t1_ <- (t5_ <- (t6_ <- (match shape with
+ | VTuple l_ => Ok (VInt (Z.of_nat (length (filter (fun v => match as_int v with Some d => d =? -1 | None => false end) l_))))
+ | _ => Raise TypeError end) ;; py_gt t6_ (VInt (1))) ;; if cond t5_ then Ok t5_ else (t4_ <- (py_eq known (VInt (0))) ;; if cond t4_ then Ok t4_ else (t3_ <- (t2_ <- Ok size ;; py_mod t2_ known) ;; py_ne t3_ (VInt (0))))) ;;
 if cond t1_ then (
 Raise ValueError
 ) else (
-extra <- (t5_ <- Ok size ;; py_floordiv t5_ known) ;;
+extra <- (t7_ <- Ok size ;; py_floordiv t7_ known) ;;
 shape <- (match shape, as_int extra with
  | VTuple l_, Some e_ => Ok (VTuple (map (fun v => match as_int v with Some d => if d =? -1 then VInt e_ else v | None => v end) l_))
  | _, _ => Raise TypeError end) ;;
@@ -40,16 +42,18 @@ Ok (VTuple [shape])
 Definition g_reshape_size_mismatch (shape : pyv) (size : pyv) : res pyv :=
 Raise ValueError.
 
-(* fragment g_gcxs_reshape_infer from sparse/numba_backend/_compressed/compressed.py:GCXS.reshape selector=('if', 'any((d == -1 for d in shape))') srchash=44b04de5f3bc0d5c *)
+(* fragment g_gcxs_reshape_infer from sparse/numba_backend/_compressed/compressed.py:GCXS.reshape selector=('if', 'any((d == -1 for d in shape))') srchash=82069656050b9242 *)
 Definition g_gcxs_reshape_infer (shape : pyv) (size : pyv) : res pyv :=
 known <- (match shape with
  | VTuple l_ => Ok (VInt (fold_right (fun v acc => match as_int v with Some d => if d =? -1 then acc else d * acc | None => acc end) 1 l_))
  | _ => Raise TypeError end) ;;
-t1_ <- (t4_ <- (py_eq known (VInt (0))) ;; if cond t4_ then Ok t4_ else (t3_ <- (t2_ <- Ok size ;; py_mod t2_ known) ;; py_ne t3_ (VInt (0)))) ;;
+t1_ <- (t5_ <- (t6_ <- (match shape with
+ | VTuple l_ => Ok (VInt (Z.of_nat (length (filter (fun v => match as_int v with Some d => d =? -1 | None => false end) l_))))
+ | _ => Raise TypeError end) ;; py_gt t6_ (VInt (1))) ;; if cond t5_ then Ok t5_ else (t4_ <- (py_eq known (VInt (0))) ;; if cond t4_ then Ok t4_ else (t3_ <- (t2_ <- Ok size ;; py_mod t2_ known) ;; py_ne t3_ (VInt (0))))) ;;
 if cond t1_ then (
 Raise ValueError
 ) else (
-extra <- (t5_ <- Ok size ;; py_floordiv t5_ known) ;;
+extra <- (t7_ <- Ok size ;; py_floordiv t7_ known) ;;
 shape <- (match shape, as_int extra with
  | VTuple l_, Some e_ => Ok (VTuple (map (fun v => match as_int v with Some d => if d =? -1 then VInt e_ else v | None => v end) l_))
  | _, _ => Raise TypeError end) ;;
